@@ -64,13 +64,20 @@ def cases(tier):
         bases = sorted(set(c["extends"] for c in cs if c["extends"]))
         base = draw(st.sampled_from(bases))
         shape = draw(st.sampled_from(["one", "one", "array", "multi"]))
-        occ1 = {"min": 0, "max": 1, "nillable": True}
+        # the declared type is the class itself or a customized variant of it (possibly
+        # customized again by Array): substitution must work for all of them
+        nil = draw(st.sampled_from([True, True, False]))
+        mn = draw(st.sampled_from([0, 0, 1]))
+        occ1 = {"min": mn, "max": 1, "nillable": nil}
         if shape == "one":
             t = {"k": "ref", "n": base, "occ": occ1}
         elif shape == "array":
-            t = {"k": "array", "of": {"k": "ref", "n": base}, "occ": occ1}
+            inner = {"k": "ref", "n": base}
+            if draw(st.booleans()):
+                inner["occ"] = {"min": 0, "max": 1, "nillable": draw(st.booleans())}
+            t = {"k": "array", "of": inner, "occ": occ1}
         else:
-            t = {"k": "ref", "n": base, "occ": {"min": 0, "max": "unbounded", "nillable": True}}
+            t = {"k": "ref", "n": base, "occ": {"min": mn, "max": "unbounded", "nillable": nil}}
         m = {"name": "m0", "args": [["a", t]], "ret": [t], "style": "wrapped"}
         poly = draw(st.sampled_from([True, True, False]))
         vg = values.ValueGen(U, special_floats=False, poly=True, nil_items=True)
